@@ -197,7 +197,7 @@ pub fn run(ctx: &Ctx) -> PropResult {
         res.inconclusive = Some(e);
         return res;
     }
-    let mut all: Vec<&'static IfaceDesc> = vec![ctx.iface("mini"), ctx.iface("pzoo")];
+    let mut all: Vec<&'static IfaceDesc> = ctx.built(&["mini", "pzoo"]);
     all.extend(ctx.random_ifaces());
     let shards = 64usize;
     let ex_msgs = ctx.scaled(if ctx.thorough { 300 } else { 20 });
